@@ -76,7 +76,7 @@ func main() {
 		os.Exit(rc)
 	case "expand":
 		// triage helper: expand the corpus and keep the scratch module (caller removes it)
-		ex, err := e3.Expand([]e3.Combo{{Runtime: "google"}, {Runtime: "gogo"}}, false)
+		ex, err := e3.Expand([]e3.Combo{{Runtime: "google"}, {Runtime: "gogo"}, {Runtime: "google", PerMessage: true, Unsafe: true}}, false)
 		if err != nil {
 			fmt.Fprintln(os.Stderr, err)
 			os.Exit(2)
